@@ -17,18 +17,18 @@ feat = "--features ram_bundle" if "ram_bundle" in open(demo).read() else ""
 res = {"mutant": diff}
 # demo without mutant
 shutil.copy(demo, os.path.join(WT, "tests", "demo_mut.rs"))
-r = sh("cargo test --offline %s --test demo_mut 2>&1 | grep -E '^test result|error(\\[|:)' | head -3" % feat, cwd=WT)
+r = sh("cargo test --offline %s --test demo_mut 2>&1 | grep -E '^test result|^error(\\[|:)' | head -3" % feat, cwd=WT)
 res["demo_clean"] = r.stdout.strip()
 r = sh("git apply %s" % diff, cwd=WT)
 if r.returncode != 0:
     print("PATCH DOES NOT APPLY", r.stderr[:300]); sys.exit(1)
-r = sh("cargo test --offline %s --test demo_mut 2>&1 | grep -E '^test result|error(\\[|:)' | head -3" % feat, cwd=WT)
+r = sh("cargo test --offline %s --test demo_mut 2>&1 | grep -E '^test result|^error(\\[|:)' | head -3" % feat, cwd=WT)
 res["demo_mutant"] = r.stdout.strip()
 os.unlink(os.path.join(WT, "tests", "demo_mut.rs"))
 r = sh("cargo test --offline 2>&1 | grep -E '^test result|^error' | grep -v 'ok\\.' | head -3; cargo build --offline --features ram_bundle 2>&1 | grep -E '^error' | head -2", cwd=WT)
 res["suite_with_mutant_failures"] = r.stdout.strip()
 sh("git checkout -q -- .", cwd=WT)
-confirmed = "FAILED" in res["demo_mutant"] and "ok." in res["demo_clean"] and res["suite_with_mutant_failures"] == ""
+confirmed = ("FAILED" in res["demo_mutant"] or "test failed" in res["demo_mutant"]) and "ok." in res["demo_clean"] and res["suite_with_mutant_failures"] == ""
 res["confirmed"] = confirmed
 # run checks on /repo
 r = sh("git -C /repo apply %s" % diff)
